@@ -693,8 +693,8 @@ Section Level.
       apply andb_true_iff in Hconf as [Hlen Hconf].
       unfold native_label_err, native_extra_err, native_block_ok. cbn [raw_header].
       rewrite Eext, ext_lookup_dynamic. cbn [Z.eqb Pos.eqb negb orb andb].
-      assert (Hh : afind t (s_blocks s1) = Some (snd (fst p))).
-      { cbn [s1 s_blocks]. rewrite headers_lk, Elk. reflexivity. }
+      assert (Hh : afind_last t (s_blocks s1) = Some (snd (fst p))).
+      { cbn [s1 s_blocks]. rewrite (afind_last_nodup t _ (types_ok_nodup _ Htypes)), headers_lk, Elk. reflexivity. }
       rewrite unroll_item_dynamic in Hc |- *. cbv zeta in Hc |- *.
       destruct (value (env_of st ++ c) fe) as [v ds] eqn:Ev.
       destruct (has_errors ds || has_unsupported ds) eqn:Eds; [discriminate Hc|].
